@@ -198,6 +198,12 @@ pub fn main(args: &[String]) -> i32 {
         eprintln!("RUN {label}");
         let t0 = std::time::Instant::now();
         let (out, handles) = execute(ctl, &opts, actors, chooser, &mut *custom);
+        if std::env::var("MV_DBG_RUN").map_or(false, |l| l == label) {
+            for l in DBG.lock().unwrap().iter() {
+                eprintln!("  DBG {l}");
+            }
+            eprintln!("  sched={}", schedule_json(&out.schedule));
+        }
         if std::env::var("MV_TIMING").is_ok() {
             eprintln!("  took {:?} end={:?} steps={} sched={}", t0.elapsed(), out.end, out.schedule.len(), schedule_json(&out.schedule));
         }
@@ -237,6 +243,8 @@ pub fn main(args: &[String]) -> i32 {
                 "scenario": scen_name, "params": params, "violation": v.kind, "detail": v.detail,
                 "end": format!("{:?}", out.end),
                 "schedule": schedule_json(&out.schedule),
+                "final_state": out.final_state,
+                "dbg": DBG.lock().unwrap().iter().rev().take(40).cloned().collect::<Vec<_>>(),
             });
             let _ = std::fs::write(&path, serde_json::to_string_pretty(&rep).unwrap());
             st.violations.push(json!({"kind": v.kind, "detail": v.detail, "replay": path, "run": label,
